@@ -33,6 +33,7 @@ DAYS = [
     "5.", "5th", "the 5th", "am 5.", "on the 21st", "31st", "den 13.",
     # day + month
     "5.10.", "05.10.", "5. Oktober", "October 5", "5th of October", "Oct 5th", "29.2.", "March 3rd", "3. März",
+    "5/5", "13/5", "3/märz",
     # absolute
     "5.10.2021", "05.10.2021", "5/10/2021", "05-10-2021", "05.10.21", "5 May 2021", "May 5 2021", "5. Mai 2021",
     "May 5th, 2021", "12/12/2022", "December 12 2022", "31.12.2021",
@@ -44,6 +45,8 @@ CLOCKS = [
     ("{h12}:{mi:02d}{ap}", "12h"), ("{h12}:{mi:02d} {ap}", "12h"), ("{h12}:{mi:02d} {a_p}", "12h"), ("{h12}.{mi:02d}{AP}", "12h"),
     ("{h} Uhr", "hour"), ("{h} uhr", "hour"), ("{h} o'clock", "hour"), ("{h}h", "hour"),
     ("{h12}{ap}", "hour12"), ("{h12} {ap}", "hour12"), ("{h12} {a_p}", "hour12"),
+    # sentence-final / one-dot markers
+    ("{h12}{ap}.", "hour12"), ("{h12} {ap}.", "hour12"), ("{h12}:{mi:02d}{ap}.", "12h"), ("{h12} {a_p1}", "hour12"),
     ("{named_en}", "named"), ("{named_en} o'clock", "named"), ("{named_de} uhr", "named"), ("{named_de}", "named"),
     ("quarter past {named_en}", "spoken"), ("halb {named_de}", "spoken"), ("viertel vor {named_de}", "spoken"), ("half past {h12}", "spoken"),
     ("midnight", "fixed"), ("mitternacht", "fixed"),
@@ -82,7 +85,7 @@ def clock_text(tpl, kind, h, mi):
         return tpl.format(h12=n), n, 30
     if kind == "fixed":
         return tpl, 0, 0
-    return tpl.format(h=h, mi=mi, h12=h12, ap=ap, AP=ap.upper(), a_p=ap[0] + ".m."), h, mi
+    return tpl.format(h=h, mi=mi, h12=h12, ap=ap, AP=ap.upper(), a_p=ap[0] + ".m.", a_p1=ap[0] + ".m"), h, mi
 
 
 def compose(day, ctext, order, conn):
@@ -175,7 +178,7 @@ def ref_for(day, tpl, order, conn, h, mi):
 def day_class(day):
     i = DAYS.index(day)
     return "relative" if i < 10 else "this-next-weekday" if i < 18 else "weekday" if i < 35 else "day-of-month" if i < 42 else \
-        "day+month" if i < 51 else "absolute"
+        "day+month" if i < 54 else "absolute"
 
 
 def do(acc, day, ci, h, mi, order, conn, ref, origin):
